@@ -51,7 +51,6 @@ func init() {
 		}
 		in.hbRelease(fr, o)
 		o.locked = false
-		in.schedPoint(fr, "unlock")
 		return nil
 	}
 	reg("(*sync.Mutex).Lock", lock)
@@ -84,7 +83,6 @@ func init() {
 		o := in.syncOf(a[0])
 		in.hbRelease(fr, o)
 		o.readers--
-		in.schedPoint(fr, "runlock")
 		return nil
 	})
 	reg("(*sync.WaitGroup).Add", func(fr *frame, a []Value) Value {
@@ -108,7 +106,6 @@ func init() {
 		if o.count < 0 {
 			panic(targetPanic{msg: "sync: negative WaitGroup counter", rt: true})
 		}
-		in.schedPoint(fr, "wg.done")
 		return nil
 	})
 	reg("(*sync.WaitGroup).Wait", func(fr *frame, a []Value) Value {
@@ -185,37 +182,3 @@ func init() {
 	reg("sync/atomic.CompareAndSwapUint64", cas)
 }
 
-// ---- scheduler hooks: no-ops in the sequential model (replaced in conc.go) ----
-
-type vclock map[int]int
-
-func (in *Interp) schedPoint(fr *frame, what string) {
-	if in.sched != nil {
-		in.sched.yield(in, fr, what)
-	}
-}
-
-func (in *Interp) blockOn(fr *frame, what string, ready func() bool) {
-	if in.sched != nil {
-		in.sched.block(in, fr, what, ready)
-		return
-	}
-	in.abort("unsupported", "deadlock: "+what+" would block forever in the sequential goroutine model")
-}
-
-func (in *Interp) hbAcquire(fr *frame, o *syncObj) {
-	if in.sched != nil {
-		in.sched.acquire(fr, o)
-	}
-}
-
-func (in *Interp) hbRelease(fr *frame, o *syncObj) {
-	if in.sched != nil {
-		in.sched.release(fr, o)
-	}
-}
-
-func (s *scheduler) yield(in *Interp, fr *frame, what string)                    {}
-func (s *scheduler) block(in *Interp, fr *frame, what string, ready func() bool) {}
-func (s *scheduler) acquire(fr *frame, o *syncObj)                              {}
-func (s *scheduler) release(fr *frame, o *syncObj)                              {}
